@@ -64,6 +64,23 @@ def formatter(vendor: str, **kw):
     return vendor_obj(vendor).make_formatter(**kw)
 
 
+class HwVendorCached:
+    """a device's hardware view whose `vendor` (a pure function of the model string that walks the whole vendor registry on
+    every read) is computed once; everything else is the real HardwareView"""
+    def __init__(self, h):
+        self._hw = h
+        self.vendor = h.vendor
+
+    def __getattr__(self, name):
+        return getattr(self._hw, name)
+
+    def __bool__(self):
+        return bool(self._hw)
+
+    def __str__(self):
+        return str(self._hw)
+
+
 def device(vendor: str):
     h = hw(vendor)
     return types.SimpleNamespace(hw=h, hostname="dev-" + vendor, fqdn="dev-%s.example" % vendor, id=1,
